@@ -88,6 +88,16 @@ def run_all():
     P_lin = lambda nn: Sh(nn) == a_ * Sf(nn) + c_ * Sg(nn) + z3.ToReal(nn if z3.is_expr(nn) else z3.IntVal(nn)) * e_
     _prove("sum.linear.base", ldefs, P_lin(0), out)
     _prove("sum.linear.step", ldefs + [P_lin(n)], P_lin(n + 1), out)
+    # -- a strictly increasing integer sequence of length n inside [0, n) is the identity (sorted == arange idiom)
+    Sq = z3.Function("S_incr", z3.IntSort(), z3.IntSort())
+    nn_, kk_, k1, k2 = z3.Ints("n_incr k_incr k1_incr k2_incr")
+    strict = z3.ForAll([k1, k2], z3.Implies(z3.And(0 <= k1, k1 < k2, k2 < nn_), Sq(k1) < Sq(k2)))
+    inr = z3.ForAll([k1], z3.Implies(z3.And(0 <= k1, k1 < nn_), z3.And(Sq(k1) >= 0, Sq(k1) < nn_)))
+    base_h = [strict, inr, nn_ >= 1]
+    _prove("incr.lower.base", base_h, Sq(0) >= 0, out)
+    _prove("incr.lower.step", base_h + [kk_ >= 0, kk_ + 1 < nn_, Sq(kk_) >= kk_], Sq(kk_ + 1) >= kk_ + 1, out)
+    _prove("incr.upper.base", base_h, Sq(nn_ - 1) <= nn_ - 1, out)
+    _prove("incr.upper.step", base_h + [kk_ >= 1, kk_ < nn_, Sq(kk_) <= kk_], Sq(kk_ - 1) <= kk_ - 1, out)
     # index arithmetic used by batchify / unbatchify (C12, C13)
     b, j, Bn = z3.Ints("b j Bn")
     hyp = [Bn >= 1, b >= 0, b < Bn, j >= 0]
